@@ -135,11 +135,11 @@ def spell(v):
     """Source spelling of a literal value (ints non-negative only; negatives via unary minus)."""
     k = v[0]
     if k == "int":
-        return str(v[1]) if v[1] >= 0 else f"(-{-v[1]})"
+        return str(v[1])
     if k == "float":
         s = repr(v[1])
         if "e" in s or "." in s:
-            return s if v[1] >= 0 else f"(-{s[1:]})"
+            return s
         return s + ".0"
     if k == "bool":
         return "true" if v[1] else "false"
